@@ -534,6 +534,37 @@ func ruleTK4(c *Ctx) *rule {
 	return r
 }
 
+func rulePS2(c *Ctx) *rule {
+	r := &rule{ID: "PS2", Engine: "E3", Floor: 3,
+		Statement: "the Literal() of the value-carrying leaves of the syntax tree is the stored field itself: (ast.String).Literal returns Text, (ast.Ident).Literal returns Name, (ast.Command).Literal returns Command, through no call",
+		Necessity: "file.New, task.New and the builtins take every name, value, path and command from Literal(): unquoting, trimming or case folding there changes a variable's value (escape sequences), a file name or a command between the spokfile and the shell"}
+	for _, leaf := range [][2]string{{"String", "Text"}, {"Ident", "Name"}, {"Command", "Command"}} {
+		m := c.methodOpt("ast", leaf[0], "Literal")
+		key := "(ast." + leaf[0] + ").Literal"
+		if m == nil || len(m.Blocks) == 0 {
+			r.undecided(key, "-", "the method was not found")
+			continue
+		}
+		bad := ""
+		for _, ret := range returnsOf(m) {
+			sl := c.newSlicer()
+			sl.depth = 0
+			res := sl.run(ret.Results[0])
+			if calls := res.callNames(); len(calls) > 0 {
+				bad = "passes through " + strings.Join(calls, ", ")
+			} else if !res.hasField("ast." + leaf[0] + "." + leaf[1]) {
+				bad = "is not the " + leaf[1] + " field"
+			}
+		}
+		if bad != "" {
+			r.bad(key, c.pos(m.Pos()), "what Literal() returns "+bad)
+		} else {
+			r.ok(key, c.pos(m.Pos()), "returns the "+leaf[1]+" field unchanged")
+		}
+	}
+	return r
+}
+
 func rulePS1(c *Ctx) *rule {
 	r := &rule{ID: "PS1", Engine: "E3", Floor: 1,
 		Statement: "the text of a string literal node is the token's text with its quotes removed and nothing else: between token.Value and ast.String.Text there is only quote stripping (ReplaceAll/Trim/TrimPrefix/TrimSuffix of the quote character, or slicing off the first and last byte)",
